@@ -35,7 +35,16 @@ IFACE_CANDIDATES = {
 
 # ---------------------------------------------------------------- model search with shrinking
 
-def size_terms(v, t, out):
+def size_terms(v, t, out, ver=None, depth=0):
+    if isinstance(v, PtrV) and ver is not None and depth < 2 and t.under().k == "ptr" and t.elem().under().k == "struct":
+        et = t.elem()
+        for name, ft, _ in et.fields():
+            try:
+                fv = HeapLV_get(ver, ver.pre_state, v.oid, et, name, ft)
+                size_terms(fv, ft, out, ver, depth + 1)
+            except Exception:
+                pass
+        return
     if isinstance(v, SliceV):
         if v.ln is not None and z3.is_expr(v.ln):
             out.append(v.ln)
@@ -64,7 +73,7 @@ def _find_model(ver, asserts, extra_sizes=()):
     t_end = time.time() + float(os.environ.get("GOVC_MODEL_BUDGET", "45"))
     sizes = []
     for name, v, t in ver.input_vals:
-        size_terms(v, t, sizes)
+        size_terms(v, t, sizes, ver)
     sizes += list(extra_sizes)
     last = None
     for bound in (8, 64, 4096, 1 << 20, 1 << 25, None):
@@ -458,8 +467,9 @@ def build_test(ver, ob, model, func, job):
     clause_go = None
     cl = None
     if ob is not None and ob.kind == "ensures" and func.contract is not None:
+        base = re.sub(r"#\d+$", "", ob.name)
         for c in func.contract.of("ensures"):
-            if ob.name.endswith(":ensures:" + c["label"]):
+            if base.endswith(":ensures:" + c["label"]):
                 cl = c
         if cl is not None and cl.get("go"):
             clause_go = exec_clause(cl["go"], [p for p, _ in params], rnames)
@@ -467,15 +477,20 @@ def build_test(ver, ob, model, func, job):
     body += g.decls
     body += lines
     body += snaps
-    body.append('defer func() { if r := recover(); r != nil { fmt.Printf("GOVC-REPLAY panic: %v\\n", r); t.Fail() } }()')
+    rec = 'defer func() { if r := recover(); r != nil { fmt.Printf("GOVC-REPLAY panic: %v\\n", r); t.Fail() } }()'
     if nres:
-        body.append("%s := %s(%s)" % (", ".join(rnames), call, ", ".join(args)))
+        rtypes = [g.gotype(ver.prog.types[r["t"]]) for r in sig.get("results") or []]
+        sigres = ", ".join("%s %s" % (n, ty) for n, ty in zip(["zr%d" % i for i in range(nres)], rtypes))
+        body.append("%s := func() (%s) { %s; return %s(%s) }()" % (", ".join(rnames), sigres, rec, call, ", ".join(args)))
         for r in rnames:
             body.append("_ = %s" % r)
-        body.append('fmt.Printf("GOVC-REPLAY results: %s\\n", %s)' % (" ".join(["%v"] * nres), ", ".join(rnames)))
+        body.append("if t.Failed() { return }")
+        body.append('fmt.Printf("GOVC-REPLAY results: %%.300s\\n", fmt.Sprint(%s))' % ", ".join(rnames))
     else:
-        body.append("%s(%s)" % (call, ", ".join(args)))
+        body.append("func() { %s; %s(%s) }()" % (rec, call, ", ".join(args)))
+        body.append("if t.Failed() { return }")
     if clause_go:
+        body.append('defer func() { if r := recover(); r != nil { fmt.Printf("GOVC-REPLAY clause-evaluation-panic: %v\\n", r) } }()')
         body.append("ok := %s" % clause_go)
         body.append('fmt.Printf("GOVC-REPLAY clause-holds: %v\\n", ok)')
         body.append("if !ok { t.Fail() }")
@@ -504,7 +519,7 @@ def run_test(src, pkgpath, repo, timeout=120):
         ov = os.path.join(tmp, "overlay.json")
         with open(ov, "w") as f:
             json.dump({"Replace": {os.path.join(repo, rel, "zz_govc_replay_test.go"): tf}}, f)
-        cmd = ["go", "test", "-tags=verif", "-overlay", ov, "-vet=off", "-count=1", "-timeout", "60s", "-run", "^TestZZGovcReplay$", "./" + rel]
+        cmd = ["go", "test", "-v", "-tags=verif", "-overlay", ov, "-vet=off", "-count=1", "-timeout", "60s", "-run", "^TestZZGovcReplay$", "./" + rel]
         try:
             r = subprocess.run(cmd, cwd=repo, env=gast.go_env(), capture_output=True, text=True, timeout=timeout)
             out = r.stdout + r.stderr
@@ -523,6 +538,8 @@ def verdict(rc, out, ob):
         return True, "reproduced: postcondition evaluates to false on the real code"
     if "GOVC-REPLAY clause-holds: true" in out:
         return False, "not reproduced: postcondition holds on the real code for the model input"
+    if "GOVC-REPLAY clause-evaluation-panic" in out:
+        return False, "inconclusive: evaluating the clause on the real results panicked: " + [l for l in out.splitlines() if "clause-evaluation-panic" in l][0]
     if "GOVC-REPLAY returned-normally" in out:
         return False, "not reproduced: the real function returned normally on the model input"
     if rc != 0:
